@@ -153,7 +153,8 @@ def run(ctx):
     # conformance + sanitizer pass on a seed-chosen slice (the enumeration above never depends on the seed)
     step = 97 if ctx.tier == "quick" else 23
     off = ctx.seed % step
-    sub = [d for i, d in enumerate(uniq) if i % step == off and d.get("reactions")]
+    # modifier cases use free symbolic factors (f, g, ...) that are not declared C names: text checks only
+    sub = [d for i, d in enumerate(uniq) if i % step == off and d.get("reactions") and not d.get("ode_modifier")]
     nconf = 0
     for nv, viols in ctx.pmap(conformance_case, [(d, ctx.seed) for d in sub]):
         nconf += nv
